@@ -1,0 +1,24 @@
+//go:build verif
+
+package gomavlib
+
+import (
+	"io"
+	"time"
+)
+
+// VerifSetReconnectPeriod replaces the reconnect back-off of client-type endpoints and returns
+// the previous value. Test instrumentation only (build tag verif).
+func VerifSetReconnectPeriod(d time.Duration) time.Duration {
+	old := reconnectPeriod
+	reconnectPeriod = d
+	return old
+}
+
+// VerifSetSerialOpenFunc replaces the function used to open serial devices and returns the
+// previous one. Test instrumentation only (build tag verif).
+func VerifSetSerialOpenFunc(f func(device string, baud int) (io.ReadWriteCloser, error)) func(string, int) (io.ReadWriteCloser, error) {
+	old := serialOpenFunc
+	serialOpenFunc = f
+	return old
+}
